@@ -15,10 +15,10 @@ META = {
                "Value::from(i64|u64) / i64::into(Integer) with no arithmetic on the way.",
     "does_not_decide": "that ciborium's TryFrom<Integer> for i64/u64 is checked and From<i64|u64> lossless (dependency; trusted), "
                        "and that uninterpreted integers in extra parameters survive (they are never touched: C08 R-1)",
-    "trusted_base": ["ciborium::value::Integer TryFrom/From implementations", "rustc MIR cast semantics"],
+    "trusted_base": ["ciborium::value::integer::Integer TryFrom/From implementations", "rustc MIR cast semantics"],
 }
 
-INTEGER = "ciborium::value::Integer"
+INTEGER = "ciborium::value::integer::Integer"
 TRY_INTO = "core::convert::TryInto::try_into"
 # position -> required target type of the narrowing
 NARROW_TARGET = {
@@ -67,13 +67,13 @@ def check(ctx):
                 through_try = False
                 residual_ok = False
                 for b2, t2 in f.calls():
-                    if callee_path(t2) == "core::ops::Try::branch" and pv.operand_term(t2["args"][0], b2, "term") == res:
+                    if callee_path(t2) == "core::ops::try_trait::Try::branch" and pv.operand_term(t2["args"][0], b2, "term") == res:
                         through_try = True
                 for b2, t2 in f.calls():
-                    if callee_path(t2) == "core::ops::FromResidual::from_residual":
+                    if callee_path(t2) == "core::ops::try_trait::FromResidual::from_residual":
                         a = pv.operand_term(t2["args"][0], b2, "term")
                         if any(x == res for x in subterms(a)):
-                            residual_ok = "core::num::TryFromIntError" in (t2["callee"]["full"])
+                            residual_ok = "core::num::error::TryFromIntError" in (t2["callee"]["full"])
                 narrow.append((f, bb, tgt))
                 want = NARROW_TARGET.get(f.key)
                 ctx.ob("R-1", "narrowing:%s" % f.key, tgt in ("i64", "u64") and through_try and (want is None or want == tgt),
@@ -85,7 +85,7 @@ def check(ctx):
                        "the error converted at this narrowing site is TryFromIntError (-> OutOfRangeIntegerValue)", where=f.where(bb))
             elif name and name.startswith("util::cbor_type_error"):
                 continue
-            elif name == "core::ops::Try::branch" or name == "core::ops::FromResidual::from_residual":
+            elif name == "core::ops::try_trait::Try::branch" or name == "core::ops::try_trait::FromResidual::from_residual":
                 continue
             else:
                 ctx.ob("R-1", "integer-use:%s:%s" % (f.key, name), False,
@@ -132,7 +132,7 @@ def check(ctx):
     ctx.floor("R-2", "numeric casts", ncast, 260)
 
     # ---- R-3 -------------------------------------------------------------------------
-    conv = prog.fn("<common::CoseError as core::convert::From<core::num::TryFromIntError>>::from")
+    conv = prog.fn("<common::CoseError as core::convert::From<core::num::error::TryFromIntError>>::from")
     rt = Prov(conv).return_term()
     ctx.ob("R-3", "out-of-range-error", rt == ("aggr", "common::CoseError", "OutOfRangeIntegerValue", ()),
            "From<TryFromIntError> for CoseError returns OutOfRangeIntegerValue", where=conv.span, detail={"return": show(rt)})
@@ -144,8 +144,8 @@ def check(ctx):
         for bb, t in f.calls():
             c = t.get("callee") or {}
             full = c.get("full", "")
-            if not (full.startswith("<ciborium::Value as core::convert::From<") or "core::convert::Into<ciborium::value::Integer>" in full
-                    or full.startswith("<ciborium::value::Integer as core::convert::From<")):
+            if not (full.startswith("<ciborium::value::Value as core::convert::From<") or "core::convert::Into<ciborium::value::integer::Integer>" in full
+                    or full.startswith("<ciborium::value::integer::Integer as core::convert::From<")):
                 continue
             src = c["args"][1] if full.startswith("<ciborium") else c["args"][0]
             if src not in INT_RANGES and src not in ("f64", "f32", "bool"):
